@@ -3,5 +3,6 @@
 cd "$(dirname "$0")" || exit 1
 export GOFLAGS=-mod=mod GOPROXY=off GOSUMDB=off GOTOOLCHAIN=local
 mkdir -p bin evidence replays
+go run ./tools/gendbwrap /repo/db engine/crash/dbwrap_gen.go || exit 1
 go build -tags verif -o bin/vcheck ./cmd/vcheck || exit 1
 echo setup ok
